@@ -71,6 +71,19 @@ def special_texts(rng, n):
     return out
 
 
+SHADOWS = [
+    ("max", "function(x, y) x + y", "max(1, 2)"),
+    ("min", "function(x, y) x - y", "[min(5, 2), 1]"),
+    ("count", "function(l) 99", "count([1, 2]) + 1"),
+    ("abs", 'function(n) "user"', "abs(n: -1)"),
+    ("sum", "function(l) 0", "{a: sum([1, 2]), b: a}.b"),
+    ("floor", "function(x) x * 10", "for i in [1.5, 2.5] return floor(i)"),
+    ("contains", 'function(a, b) "user"', 'contains("ab", "a")'),
+    ("append", "function(l, x) l", "append([1], 2)"),
+    ("upper case", 'function(s) "user"', 'upper case("a")'),
+]
+
+
 def layered_scope(rng):
     g = gfeel.Gen(rng)
     frames = g.scope()
@@ -142,7 +155,13 @@ def run(rep, tier, seed):
         for t in gen_texts(rng, 6) + special_texts(rng, 2):
             evs.append({"entry": "expr", "text": t, "scope": pscope})
         scopes = [layered_scope(rng) for _ in range(4)]
-        steps = [[rng.randrange(8), rng.randrange(4)] for _ in range(rng.choice([200, 500, 2000]))]
+        # names of built-in functions: unbound in two of the scopes (the built-in applies), bound to a user-defined
+        # function in the other two (the binding shadows the built-in); one prepared evaluator serves all four
+        for name, fn, call in rng.sample(SHADOWS, 2):
+            evs.append({"entry": "expr", "text": call, "scope": pscope if rng.random() < 0.5 else scopes[2]})
+            for sc in scopes[2:]:
+                sc.append([[name, {"feel": fn}]])
+        steps = [[rng.randrange(len(evs)), rng.randrange(4)] for _ in range(rng.choice([200, 500, 2000]))]
         hcases.append({"op": "history", "evaluators": evs, "scopes": scopes, "steps": steps})
     hresults, _ = runner.run_cases("dbg", hcases, rep.workdir, label="history", case_timeout=120)
     obs = reps = 0
